@@ -1,4 +1,4 @@
-(* Proofs/CloneMwProofs.v - a client's middleware are its own (C18) *)
+(* Proofs/CloneMwProofs.v - what a client carries is its own (C18) *)
 From Coq Require Import Lia.
 From ReqV Require Import Lib.Bytes Model.CloneMw.
 
@@ -17,34 +17,42 @@ Proof.
   induction n; intros f l d L; destruct l; cbn in *; try lia; auto. apply IHn. lia.
 Qed.
 
-Definition touches (c : nat) (o : cop) : bool := match o with CReg c' _ _ => Nat.eqb c c' | CClone _ => false end.
+Definition touches (c : nat) (o : cop) : bool :=
+  match o with CReg c' _ _ | CErrType c' _ => Nat.eqb c c' | CClone _ => false end.
 
-(* one operation that is not a registration on client c leaves c's lists as they are *)
+(* one operation that is not a registration / setting on client c leaves what c carries as it is *)
 Lemma step_other_unchanged : forall s o c, c < length s -> touches c o = false ->
-  nth c (step s o) ([], []) = nth c s ([], []) /\ c < length (step s o).
+  nth c (step s o) cl0 = nth c s cl0 /\ c < length (step s o).
 Proof.
-  intros s o c L T. destruct o as [c' r m|src]; cbn in *.
-  - apply PeanoNat.Nat.eqb_neq in T. destruct r; rewrite update_nth_other by auto; rewrite update_length; auto.
+  intros s o c L T. destruct o as [c' k m|c' t|src]; cbn in *.
+  - apply PeanoNat.Nat.eqb_neq in T. rewrite update_nth_other by auto. rewrite update_length. auto.
+  - apply PeanoNat.Nat.eqb_neq in T. rewrite update_nth_other by auto. rewrite update_length. auto.
   - rewrite app_nth1 by exact L. rewrite app_length. cbn. split; [reflexivity|lia].
 Qed.
 
-(* after the last registration on a client, nothing that is registered on - or cloned from - any
-   client changes what that client carries *)
+(* after the last registration / setting on a client, nothing that is registered on, set on or
+   cloned from any other client changes what that client carries - response middleware, request
+   middleware, round-trip wrappers and common error type alike *)
 Lemma later_ops_on_others_irrelevant : forall ops s c, c < length s ->
   forallb (fun o => negb (touches c o)) ops = true ->
-  nth c (fold_left step ops s) ([], []) = nth c s ([], []).
+  nth c (fold_left step ops s) cl0 = nth c s cl0.
 Proof.
   induction ops as [|o rest IH]; intros s c L F; cbn in *; [reflexivity|].
   apply andb_prop in F. destruct F as [F1 F2]. apply Bool.negb_true_iff in F1.
   destruct (step_other_unchanged s o c L F1) as [E L']. rewrite IH by auto. exact E.
 Qed.
 
-(* a clone starts with a copy of what its source carries at that moment ... *)
-Lemma clone_copies : forall s src, nth (length s) (step s (CClone src)) ([], []) = nth src s ([], []).
+(* a clone starts with a copy of everything its source carries at that moment ... *)
+Lemma clone_copies : forall s src, nth (length s) (step s (CClone src)) cl0 = nth src s cl0.
 Proof. intros s src. cbn. rewrite app_nth2 by lia. rewrite PeanoNat.Nat.sub_diag. reflexivity. Qed.
 
 (* ... and a registration appends to the registering client's list of that kind only *)
-Lemma reg_appends : forall s c r m, c < length s ->
-  nth c (step s (CReg c r m)) ([], []) =
-  (if r then (fst (nth c s ([], [])) ++ [m], snd (nth c s ([], []))) else (fst (nth c s ([], [])), snd (nth c s ([], [])) ++ [m])).
-Proof. intros s c r m L. destruct r; cbn; rewrite update_nth_same by exact L; reflexivity. Qed.
+Lemma reg_appends : forall s c k m, c < length s ->
+  nth c (step s (CReg c k m)) cl0 = reg k m (nth c s cl0).
+Proof. intros s c k m L. cbn. rewrite update_nth_same by exact L. reflexivity. Qed.
+
+Lemma errtype_sets_own : forall s c t, c < length s ->
+  cl_et (nth c (step s (CErrType c t)) cl0) = t /\
+  cl_resp (nth c (step s (CErrType c t)) cl0) = cl_resp (nth c s cl0) /\
+  cl_wraps (nth c (step s (CErrType c t)) cl0) = cl_wraps (nth c s cl0).
+Proof. intros s c t L. cbn. rewrite update_nth_same by exact L. cbn. auto. Qed.
